@@ -33,6 +33,7 @@ func init() {
 func ip(n int) *int { return &n }
 
 func runC04(x *X) {
+	runC04FromCallback(x)
 	decors := []DecorChoice{namedDecor(decoration.D_UTF8_HEAVY), namedDecor(decoration.D_ASCII_SIMPLE), namedDecor(decoration.D_NONE)}
 	if x.Thorough() {
 		decors = nil
